@@ -814,7 +814,9 @@ def fam_caches(rng, tier, i, reopen=False, faults=False):
         s.append("close")
         B = rng.choice(Bs)
         f = rng.random()
-        if f < 0.3:
+        if i % 6 == 1:
+            s.append("fs_cut data:c %d" % len(encode(p, lines)))          # the source emptied: its header stays, every line is gone
+        elif f < 0.3:
             s += ["fs_rm cdata:c:%d" % B, "fs_rm cindex:c:%d" % B]
         elif f < 0.6:
             s.append("fs_cut cdata:c:%d %d" % (B, rng.randrange(1, 3 * (p + 2) + 2)))
